@@ -263,7 +263,7 @@ func c10r2(rc *core.RC) {
 			written := writtenMaps(info, fd.Body)
 			for o := range loaded {
 				key := fmt.Sprintf("%s/loaded-map %s", p.FuncName(fd), o.Name())
-				if pos, w := written[o]; w {
+				if pos, w := writtenAlias(info, fd.Body, o, written); w {
 					rc.Bad(key, pos, "the map obtained from the atomically published pointer is written in place: concurrent readers iterate or look up the same map")
 				} else {
 					rc.OK(key, fd.Pos(), "the published map is only read here")
@@ -300,8 +300,8 @@ func c10r2(rc *core.RC) {
 					}
 					key := fmt.Sprintf("%s/loaded-map passed to %s", p.FuncName(fd), p.FuncName(cd))
 					cw := writtenMaps(cinfo, cd.Body)
-					if pos, w := cw[prm]; w {
-						rc.Bad(key, pos, "%s writes into the map it receives, which is the published one", p.FuncName(cd))
+					if pos, w := writtenAlias(cinfo, cd.Body, prm, cw); w {
+						rc.Bad(key, pos, "%s writes into the map it receives (directly or through a variable assigned from it), which is the published one", p.FuncName(cd))
 						continue
 					}
 					// the callee must publish a fresh map atomically
@@ -329,6 +329,50 @@ func c10r2(rc *core.RC) {
 }
 
 // writtenMaps returns the map-typed variables that are assigned through an index expression or deleted from.
+// writtenAlias reports a write into root or into any variable that may hold the same map
+// (flow-insensitive closure over `a := b` and `a = b`).
+func writtenAlias(info *types.Info, body *ast.BlockStmt, root types.Object, written map[types.Object]token.Pos) (token.Pos, bool) {
+	if root == nil {
+		return token.NoPos, false
+	}
+	alias := map[types.Object]bool{root: true}
+	for changed := true; changed; {
+		changed = false
+		ast.Inspect(body, func(n ast.Node) bool {
+			switch x := n.(type) {
+			case *ast.AssignStmt:
+				if len(x.Lhs) != len(x.Rhs) {
+					return true
+				}
+				for i, r := range x.Rhs {
+					if ro := core.ObjOf(info, r); ro != nil && alias[ro] {
+						if lo := core.ObjOf(info, x.Lhs[i]); lo != nil && !alias[lo] {
+							alias[lo] = true
+							changed = true
+						}
+					}
+				}
+			case *ast.ValueSpec:
+				for i, r := range x.Values {
+					if ro := core.ObjOf(info, r); ro != nil && alias[ro] && i < len(x.Names) {
+						if lo := info.Defs[x.Names[i]]; lo != nil && !alias[lo] {
+							alias[lo] = true
+							changed = true
+						}
+					}
+				}
+			}
+			return true
+		})
+	}
+	for o := range alias {
+		if pos, w := written[o]; w {
+			return pos, true
+		}
+	}
+	return token.NoPos, false
+}
+
 func writtenMaps(info *types.Info, body *ast.BlockStmt) map[types.Object]token.Pos {
 	out := map[types.Object]token.Pos{}
 	ast.Inspect(body, func(n ast.Node) bool {
